@@ -202,7 +202,7 @@ CLAIMS = {
              'that does not fit, a malformed shape / layout / colour / action / object list or a nameless entry at ANY depth gives SchemaError and never an environment; a '
              'built environment consists of exactly the described parts (inversion clause by clause); a built component IS the registered function of the given name with '
              'accepted keys only and all required ones; an unregistered name or a missing required parameter never yields a component; a parameter nobody accepts changes '
-             'nothing; by kernel evaluation every shipped tree validates and constructs.  On the code: ~45 systematic corruptions of each of the 21 shipped trees must be '
+             'nothing; the order of dictionary entries is irrelevant to validation; construction can only fail with SchemaError or ValueError (or the class marking inputs outside the modelled domain); by kernel evaluation every shipped tree validates and constructs and yields the descriptors the harness reads out of the same files.  On the code: ~45 systematic corruptions of each of the 21 shipped trees must be '
              'rejected with a schema or value error and never yield an environment; unaccepted parameters must be ignored without changing behaviour.  '
              'Tie: T2 of the configuration layer (every shipped tree, every systematic corruption, random edits of the trees: verdict schema error / value error / built, and '
              'when built the spaces, actions and component tree of the real environment); '
